@@ -11,6 +11,7 @@
   histories `ops` that end in the flush in question.
 -/
 import XzVerif.Lemmas.FlushStream2
+import XzVerif.Lemmas.FlushC01
 import XzVerif.Gen.C12
 
 namespace XzVerif.C12
@@ -446,6 +447,44 @@ theorem mt_update_rule (m : MtEnc) (fs : Chain) :
     have : ¬ fs.length > FILTERS_MAX := by omega
     simp [MtEnc.update, he, hc, hm, this]
 
+/-! ## Link to the real chunk coder models (C01) -/
+
+open XzVerif.FlushC01 in
+/-- **lzma2Codec_sound_partial**: the abstract contract `Codec.Sound`, instantiated with C01's models of the LZMA symbol
+    coder and the C range coder (`encSyms`, `encOps`/`encFlush` on the encoder side; `readInit`, `decBytes`, `normalizeL`
+    on the decoder side) for ANY match finder / parser `P`.
+    DISCHARGED from C01 (`lzma2_chunk_roundtrip`, `encSyms_of_expand`) for every parser:
+      * `Sound.inv` — every LZMA chunk `choose` emits is decoded by `dec` to exactly the bytes it covers, leaving the
+        decoder in the encoder's state (probabilities, state machine, reps);
+      * of `Sound.wf`: a chunk covers between 1 and all of the unencoded bytes; an LZMA payload is never empty.
+    REMAIN HYPOTHESES (statements about the parser and the chunk-limit logic of lzma_lzma_encode / lzma2_encode, for which
+    there is no model here):
+      * `hlimits` — the rest of `Sound.wf`: a chunk covers at most 2 MiB, its payload is at most 64 KiB, and a chunk that
+        did not shrink (stored uncompressed) covers at most 64 KiB;
+      * `hlive` — `Sound.live`, reduced to the parser: when flushing, on a coder state that can occur, it describes a
+        non-empty prefix of the unencoded bytes (`lzma_lzma_encode` runs until read_pos == read_limit, read_ahead == 0);
+      * `hlag` — `Sound.lag`: under LZMA_RUN it never describes all unencoded bytes (keep_size_after stays back). -/
+theorem lzma2Codec_sound_partial (dictSize : Nat) (hd : dictSize ≤ 4294967295) (P : Parser)
+    (hlimits : ∀ (fl : Bool) (p : Props) (s : St) (d a : Bytes) (ch : Choice) (s' : St),
+      (lzmaCodec dictSize P).choose fl p s d a = some (ch, s') →
+        ch.n ≤ LZMA2_UNCOMPRESSED_MAX ∧ (ch.isLzma = true → ch.payload.length ≤ LZMA2_CHUNK_MAX) ∧
+        (ch.isLzma = false → ch.n ≤ LZMA2_CHUNK_MAX))
+    (hlive : P.Live dictSize) (hlag : P.Lag) :
+    (lzmaCodec dictSize P).Sound := by
+  refine ⟨?_, lzmaCodec_lag dictSize P hlag, lzmaCodec_live dictSize hd P hlive, lzmaCodec_inv dictSize hd P⟩
+  intro fl p s d a ch s' h
+  obtain ⟨c1, c2⟩ := lzmaCodec_covers dictSize P fl p s d a ch s' h
+  obtain ⟨l1, l2, l3⟩ := hlimits fl p s d a ch s' h
+  exact ⟨c1, c2, l1, fun hz => ⟨lzmaCodec_payload dictSize hd P fl p s d a ch s' h, l2 hz⟩, l3⟩
+
+open XzVerif.FlushC01 in
+/-- the part that needs no hypothesis at all, for reference: decodability of every emitted chunk, for every parser -/
+theorem lzma2Codec_inv (dictSize : Nat) (hd : dictSize ≤ 4294967295) (P : Parser)
+    (fl : Bool) (p : Props) (s : St) (d a : Bytes) (ch : Choice) (s' : St)
+    (h : (lzmaCodec dictSize P).choose fl p s d a = some (ch, s')) (hz : ch.isLzma = true) :
+    (lzmaCodec dictSize P).dec p s d ch.payload ch.n = some (a.take ch.n, s') :=
+  lzmaCodec_inv dictSize hd P fl p s d a ch s' h hz
+
 /-! ## Non-vacuity: a concrete compressor that satisfies the contract, and concrete histories -/
 
 /-- A toy compressor: two equal bytes become a one-byte LZMA chunk ("run of two"), anything else a stored chunk of one
@@ -481,7 +520,7 @@ theorem toyCodec_sound : toyCodec.Sound := by
         · simp [hxy] at h; obtain ⟨rfl, _⟩ := h
           simp [Choice.isLzma, LZMA2_UNCOMPRESSED_MAX, LZMA2_CHUNK_MAX]
   · intro p s d a ch s' h; simp [toyCodec] at h
-  · intro p s d a ha
+  · intro p s d a _ ha
     match a, ha with
     | [x], _ => simp [toyCodec]
     | x :: y :: rest, _ =>
@@ -558,5 +597,23 @@ example (F : Fmt) := flush_then_continue toyEnv (fun _ => toyCodec_sound) F lzma
 
 example (F : Fmt) := full_flush_ends_block toyEnv (fun _ => toyCodec_sound) F lzma2Chain 4 (by decide)
   [.code .fullFlush [], .code .run [1, 1]] .fullBarrier (Or.inr rfl) [] (by decide) (by decide)
+
+/-! ### the hypotheses of `lzma2Codec_sound_partial` are satisfiable: a parser that codes one literal per chunk -/
+
+open XzVerif.FlushC01 XzVerif.LzmaEnc XzVerif.LzmaSym in
+def literalParser : Parser :=
+  { pick := fun fl _ _ _ a => if fl then (match a with | b :: _ => some [Sym.lit b] | [] => none) else none }
+
+open XzVerif.FlushC01 XzVerif.LzmaEnc XzVerif.LzmaSym in
+example : literalParser.Lag := by
+  intro p s d a syms h; simp [literalParser] at h
+
+open XzVerif.FlushC01 XzVerif.LzmaEnc XzVerif.LzmaSym in
+example (dictSize : Nat) : literalParser.Live dictSize := by
+  intro p s d a _ _ _ ha
+  match a, ha with
+  | b :: rest, _ =>
+    refine ⟨[Sym.lit b], by simp [literalParser], by simp [symsLen, Sym.len], by simp [symsLen, Sym.len], ?_⟩
+    simp [lzExpand, applySym, symsLen, Sym.len]
 
 end XzVerif.C12
